@@ -52,6 +52,46 @@ def run(ctx):
     if wb is None or rb is None:
         ctx.violation("R12.2", "conjure_object", "f64|anchor", "Plain / FromPlain for f64 not found")
     else:
+        # table form: writer and reader share one constant table of (spelling, value) pairs
+        def spelling_tables(body):
+            out = []
+            items = set()
+
+            def walk(o):
+                if isinstance(o, dict):
+                    cst = o.get("c")
+                    if isinstance(cst, dict) and isinstance(cst.get("item"), str):
+                        items.add(cst["item"])
+                    for v in o.values():
+                        walk(v)
+                elif isinstance(o, list):
+                    for v in o:
+                        walk(v)
+            for x in [body] + c.closures_of(body):
+                walk(x.d.get("blocks"))
+                walk(x.d.get("promoted"))
+            for it in items:
+                cb = [x for x in c.bodies if x.kind in ("const", "static") and x.path == it]
+                if cb:
+                    pairs = []
+                    for bb, j, s_ in cb[0].stmts():
+                        if s_["r"].get("agg") == "tuple" and len(s_["r"]["ops"]) == 2:
+                            a_, b_ = [(o.get("c") or {}) for o in s_["r"]["ops"]]
+                            if "str" in a_ and "float" in b_:
+                                pairs.append((a_["str"], b_["float"]))
+                    if pairs:
+                        out.append((it, sorted(pairs)))
+            return out
+        wt, rt = spelling_tables(wb), spelling_tables(rb)
+        table_form = bool(wt) and wt == rt
+    if wb is not None and rb is not None and table_form:
+        spec_pairs = sorted([("Infinity", "inf"), ("-Infinity", "-inf")])
+        ctx.check(len(wt) == 1 and wt[0][1] == spec_pairs, "R12.2", wb.loc(), "f64|table", f"the shared spelling table of Plain / FromPlain for f64 is {wt}; specification: {spec_pairs}", instance=f"f64: writer and reader share the table {spec_pairs}")
+        disp = [tystr(t["call"]["substs"][0]) for x in [wb] + c.closures_of(wb) for _, t in x.calls() if t["call"]["def"] == "core::fmt::Display::fmt"]
+        ctx.check(sorted(disp) == ["f64", "str"], "R12.2", wb.loc(), "f64|writer-complete", f"Plain for f64 (table form) must write a table spelling or defer to Display of the value; Display calls on {disp}", instance="f64 writer: table spelling or Display")
+        ps = [t for x in [rb] + c.closures_of(rb) for _, t in x.calls() if t["call"]["name"] == "parse" and [tystr(y) for y in t["call"]["substs"]] == ["f64"]]
+        ctx.check(len(ps) == 1, "R12.2", rb.loc(), "f64|reader-fallback", "FromPlain for f64 must defer to str::parse::<f64> otherwise", instance="f64 reader: otherwise str::parse::<f64>")
+    elif wb is not None and rb is not None:
         cfg = CFG(wb)
         tr = Tracer(wb)
         seen = {}
@@ -135,6 +175,11 @@ def run(ctx):
             ctx.check(ok, "R12.4", b.loc(), f"plain|{ty}", "Plain for Bytes must delegate to Plain for [u8]", instance="Bytes -> Plain for [u8]")
             continue
         ok = len(calls) == 1 and calls[0]["call"]["def"] == "core::fmt::Display::fmt" and tystr(calls[0]["call"]["substs"][0]) == ty
+        if not ok and len(calls) == 1 and calls[0]["call"]["def"] == "core::fmt::Display::fmt" and tystr(calls[0]["call"]["substs"][0]) == "str":
+            # Display of the value's own text accessor (as_str / AsRef<str> / Deref): the same text <Self as Display> prints
+            roots, via = dt.transforming_calls(b, calls[0]["args"][0])
+            ok = len(via) == 1 and via[0]["call"]["name"] in ("as_str", "as_ref", "deref", "borrow") and ty_adt(strip_refs(b.local_ty(place_local(op_place(via[0]["args"][0]))))) == ty_adt({"adt": ty}) \
+                and Tracer(b).root_locals(via[0]["args"][0]) == {1}
         ctx.check(ok, "R12.4", b.loc(), f"plain|{ty}", f"Plain for {ty} must resolve to <{ty} as Display>::fmt; found {[(t['call']['def'], tystr(t['call']['substs'][0])) for t in calls]}", instance=f"{ty}: Plain -> Display of Self")
     for ty, i in sorted(fp.items()):
         if ty in ("f64", "bytes::bytes::Bytes") or ty.startswith("chrono::"):
@@ -143,8 +188,16 @@ def run(ctx):
         calls = [t for _, t in b.calls() if t["call"]["name"] in ("parse", "from_str")]
         n += 1
         ok = len(calls) == 1 and tystr(calls[0]["call"]["substs"][-1 if calls[0]["call"]["name"] == "parse" else 0]) == ty
+        if not ok and not calls:
+            # through the type's own constructor `T::new(s)`, itself a plain delegation to FromStr
+            news = [t for _, t in b.calls() if t["call"].get("local") and t["call"]["name"] == "new" and tystr(t["call"].get("self_ty") or {}) == ty]
+            if len(news) == 1:
+                nb_ = c.body(news[0]["call"]["id"])
+                inner = [t for _, t in nb_.calls() if t["call"]["name"] in ("parse", "from_str")] if nb_ is not None else []
+                ok = len(inner) == 1 and tystr(inner[0]["call"]["substs"][-1 if inner[0]["call"]["name"] == "parse" else 0]) == ty and Tracer(nb_).root_locals(inner[0]["args"][0]) == {1} \
+                    and Tracer(b).root_locals(news[0]["args"][0]) == {1}
         ctx.check(ok, "R12.4", b.loc(), f"fromplain|{ty}", f"FromPlain for {ty} must resolve to str::parse::<{ty}>; found {[(t['call']['name'], [tystr(x) for x in t['call']['substs']]) for t in calls]}", instance=f"{ty}: FromPlain -> FromStr of Self")
-    ctx.floor("R12.4", "delegating PLAIN impls", n, 14)
+    ctx.floor("R12.4", "delegating PLAIN impls", n, 8)
     # ---------------- R12.5 generated aliases
     ct = F.crate("conjure_test")
     na = 0
@@ -199,4 +252,4 @@ def run(ctx):
             ctx.check(not bad, "R12.6", b.loc(t["ln"]), f"{b.path.split('::{closure')[0]}|from_plain|unmodified-input",
                       f"{b.path}: the text handed to from_plain passes through {bad}: a parameter must be parsed from exactly the text that was sent (PLAIN strings may legitimately start or end with any character)",
                       instance=f"{b.path.split('::')[-2] if '::' in b.path else b.path}: from_plain(received text)")
-    ctx.floor("R12.6", "from_plain calls in the HTTP parameter decoders", nfp, 5)
+    ctx.floor("R12.6", "from_plain calls in the HTTP parameter decoders", nfp, 1)
